@@ -320,12 +320,21 @@ func knownNilAt(blk *ssa.BasicBlock) map[ssa.Value]bool {
 	return out
 }
 
+var derivSeen map[ssa.Value]bool
+
 // derivesFrom reports whether v is computed from src through the given
 // permitted instruction kinds only (a light-weight backward slice).
 func derivesFrom(v ssa.Value, pred func(ssa.Value) bool, depth int) bool {
+	if depth == 0 {
+		derivSeen = map[ssa.Value]bool{}
+	}
 	if depth > 30 || v == nil {
 		return false
 	}
+	if derivSeen[v] {
+		return false
+	}
+	derivSeen[v] = true
 	if pred(v) {
 		return true
 	}
